@@ -156,6 +156,53 @@ def rtu_reopen_family(ctx):
     return stats
 
 
+def rtu_task_family(ctx):
+    """the REAL RTU server task (create_rtu_server_task on a pty; harness `rtu_task` and the scenario
+    generator of the C01 check): sessions ended by a hang-up or by a bad frame from the peer, failed opens,
+    waits before the re-open, decode-level changes in every phase - and then ServerHandle::shutdown() or the
+    handle dropped, in a session as well as in a wait. Whatever the peer did before: no panic, and the task
+    has ended shortly after the shutdown request."""
+    from checks import srv
+    r = ctx.rng
+    if ctx.replay and 'rtu_task_cases' in ctx.replay:
+        lines = ctx.replay['rtu_task_cases']
+    elif ctx.replay:
+        return {}
+    else:
+        lines = []
+        n = 16 if ctx.quick() else 200
+        tries = 0
+        while len(lines) < n and tries < 100000:
+            tries += 1
+            sc = srv.gen_rtu_scenario(r)
+            last = sc[3][-1]
+            ends = last[-1] in ('shutdown', 'drop')
+            in_wait = last[0] in ('wait', 'openfail')
+            # at least half of the scenarios end with the request arriving during a wait before the re-open
+            if not ends or (len(lines) % 2 == 0 and not in_wait):
+                continue
+            lines.append(srv.rtu_scenario_line(sc))
+    out = ctx.harness('rtu_task', lines, shards=4, timeout=900)
+    bad = 0
+    kinds = {}
+    for l, o in zip(lines, out):
+        steps = l.split('|')[-1].split(',')
+        where = 'wait' if any(x.startswith('txq:') or x == 'hup' or x == 'unlink' for x in steps[-6:]) else 'session'
+        kinds[where] = kinds.get(where, 0) + 1
+        problem = None
+        if o.count('|') < 2:
+            problem = 'panic or crash: ' + o[:160]
+        elif o.rsplit('|', 1)[1] != 'done':
+            problem = 'the RTU server task was still running after ServerHandle::shutdown() / the handle was dropped'
+        if problem:
+            bad += 1
+            if bad <= 2:
+                ctx.violation('server.rtu-task.' + ('panic' if o.count('|') < 2 else 'shutdown-not-honoured'),
+                              f'{problem}; steps: {l.split("|")[-1][:200]}', {'rtu_task_cases': [l], 'impl': o[:300]})
+    ctx.oblige('correspondence:rtu-server-task-honours-shutdown-in-every-phase', bad == 0, f'{bad} failing scenarios')
+    return {'scenarios': len(lines), 'shutdown_requested_in': kinds}
+
+
 def run(ctx):
     ctx.translate([])
     lemmas = check_sites(ctx)
@@ -205,9 +252,11 @@ def run(ctx):
         if missing and bad == 0:
             ctx.oblige('generator-reaches-expected-classes', False, 'missing: ' + ','.join(missing))
     reopen = rtu_reopen_family(ctx)
+    rtu_task = rtu_task_family(ctx)
     ctx.coverage.update({
         'rtu_server_across_reopens': reopen,
-        'evaluations': len(cases) + reopen.get('histories', 0),
+        'rtu_server_task': rtu_task,
+        'evaluations': len(cases) + reopen.get('histories', 0) + rtu_task.get('scenarios', 0),
         'distinct_nontrivial': len(set(c for c in cases if len(c.split()) >= 4 and len(''.join(c.split()[3:])) >= 16)),
         'rule': 'streams = concatenations of valid / mutated / badly framed Modbus frames or raw random bytes, cut into read chunks (all-at-once, byte-per-byte, random, header-edge, 260-byte-buffer-edge), a quarter with a scripted transmit side (writes taken in pieces / parked as by a peer that does not read, released or not), x role x framing x decode level; non-trivial = at least 8 stream bytes; distinct by full case text',
         'samples': [[c[:200], o] for c, o in list(zip(cases, out))[:5]],
